@@ -15,15 +15,17 @@ Definition enc_pf (e : henc) : Z := fst (snd (snd (snd e))).
 
 Ltac hh_cases :=
   repeat match goal with
-         | |- context [if ?c then _ else _] => destruct c
-         | |- context [match ?c with Some _ => _ | None => _ end] => destruct c
+         | |- context [if ?c then _ else _] =>
+             lazymatch c with true => fail | false => fail | _ => destruct c end
+         | |- context [match ?c with Some _ => _ | None => _ end] =>
+             lazymatch c with Some _ => fail | None => fail | _ => destruct c end
          end.
 
 (* seen_entries only grows (or the state is returned as it is) *)
 Lemma hh_push_step_ents_true s st (e : henc) :
   AccountBoot.mem 0%nat (p_ents st) = true -> AccountBoot.mem 0%nat (p_ents (push_step s st e)) = true.
 Proof.
-  intros H. unfold push_step, push_step_gen. cbv zeta.
+  intros H. unfold push_step, push_step_gen. cbv zeta. cbn [negb orb].
   hh_cases; cbn [p_ents]; try exact H; unfold AccountBoot.mem in *; cbn [existsb]; rewrite H; apply orb_true_r.
 Qed.
 
@@ -32,7 +34,7 @@ Lemma hh_push_step_ents_false s st (e : henc) :
   AccountBoot.mem 0%nat (p_ents (push_step s st e)) = false.
 Proof.
   intros Hk H. assert (Hn : Nat.eqb 0 (fst (snd e)) = false) by (apply Nat.eqb_neq; intros E; apply Hk; symmetry; exact E).
-  unfold push_step, push_step_gen. cbv zeta.
+  unfold push_step, push_step_gen. cbv zeta. cbn [negb orb].
   hh_cases; cbn [p_ents]; try exact H; unfold AccountBoot.mem in *; cbn [existsb]; rewrite H, Hn; reflexivity.
 Qed.
 
@@ -189,13 +191,22 @@ Proof.
 Qed.
 
 (* the hypotheses hold on a non-trivial state: EFI image with two names, Mac image, efi + mac hybrid
-   (HybridHistProofs.w_two_names, before its final write) *)
-Example hh_rba_gen_example :
-  let s := hrun hinit (removelast w_two_names) in
-  exists bt y rest, hhyb s = Some y /\ bboot (hb s) = Some bt /\ binos bt = 1%nat :: rest /\
-                    v_platform_id (c_validation (bcat bt)) = 0 /\ length (henc_list (lroot (bl (hb s))) (hentries bt)) = 4%nat /\
-                    ih_rba (hy_ih (p_hy (push (hb s) y))) = 104.
-Proof. vm_compute. do 3 eexists. repeat split. Qed.
+   (HybridHistProofs.w_two_names, before its final write): catalog with initial entry, validation
+   platform 0, four encs (BOOT, EA, EB, MAC), and the conclusion computed: rba = 4 * 26 *)
+Definition rba_gen_chk (s : hstate) : bool :=
+  match hhyb s, bboot (hb s) with
+  | Some y, Some bt =>
+      match binos bt with
+      | i0 :: _ =>
+          (v_platform_id (c_validation (bcat bt)) =? 0) &&
+          Nat.eqb (length (henc_list (lroot (bl (hb s))) (hentries bt))) 4 &&
+          (ih_rba (hy_ih (p_hy (push (hb s) y))) =? rba_of (hb s) i0 * 4) && (rba_of (hb s) i0 =? 26)
+      | [] => false
+      end
+  | _, _ => false
+  end.
+Example hh_rba_gen_example : rba_gen_chk (hrun hinit (removelast w_two_names)) = true.
+Proof. vm_compute. reflexivity. Qed.
 
 Print Assumptions hh_rba_is_initial_entry_gen.
 Print Assumptions hh_rba_is_initial_entry_run.
